@@ -490,8 +490,8 @@ def judge_c16(d):
         return "the series exported by Metrics::collect are [%s]; METRICS.md documents [%s]" % (impl, model)
     ops = q.split("ops=")[1].split(";")
     io, mo = impl.split(" | "), model.split(" | ")
-    names = {"s": "client_sessions (http1/http2)", "t": "outbound_tcp_sockets", "u": "outbound_udp_sockets",
-             "up": "bytes relayed client->peer (http1/http2)", "dn": "bytes relayed peer->client (http1/http2)"}
+    names = {"s": "client_sessions (http1/http2/http3)", "t": "outbound_tcp_sockets", "u": "outbound_udp_sockets",
+             "up": "bytes relayed client->peer (http1/http2/http3)", "dn": "bytes relayed peer->client (http1/http2/http3)"}
     for k, (a, b) in enumerate(zip(io, mo)):
         if a == b:
             continue
@@ -906,12 +906,12 @@ PROPS = {
              " When raw sockets are permitted the histories also open ICMP multiplexer tunnels and send echo requests to "
              "127.0.0.1 (answered by the kernel: counted both ways with their on-the-wire length) and to an IPv6 peer with IPv6 "
              "switched off (dropped by the forwarder: counted nowhere); origin half-closes are part of the histories."
-             " Live HTTP/3 part (suite c16h3, wall clock, no model: the property is checked directly): the real Core::listen with its "
-             "metrics listener; 3 (thorough 12) histories of 1-3 QUIC sessions, 1-4 CONNECT tunnels to a loopback origin, transfers of "
-             "0-90000 bytes each way, tunnels ended by the client's FIN then the origin, by the origin, or by a stream reset, sessions "
-             "closed by the client with their remaining tunnels; after every step GET /metrics must (within 3 s) show "
-             "client_sessions{http3} and outbound_tcp_sockets equal to what is alive, the http3 traffic counters equal to what was "
-             "relayed, the http1 / http2 series and outbound_udp_sockets untouched, and /health-check 200",
+             " Live HTTP/3 part (suite c16h3, wall clock): the real Core::listen with its metrics listener; 4 directed and 8 (thorough "
+             "40) random histories in the same operation language - open an HTTP/3 session, close it (also with tunnels open), CONNECT to "
+             "a loopback origin or a refusing port, 1-90000 bytes up or down, client FIN / client reset / origin close in any order - "
+             "executed by a quiche client; after every operation the series of GET /metrics, once stable, are compared with the model "
+             "(Proto.h3: multiplexed like HTTP/2, own cells, and a vanished client's open tunnels are torn down at once); between "
+             "histories all gauges must return to zero within 3 s; /health-check must answer 200",
         explanation="theorems cells_equal_objects, gauges_nonneg, all_clients_gone_sessions_udp_zero, all_clients_gone_everything_zero, "
                     "refused_connect_balanced, hanging_connect_released_by_timeout, counters_monotone, up_adds_exactly, "
                     "down_adds_exactly, no_relay_no_bytes, half_closed_tunnel_released_when_both_ended, icmp_counts_only_relayed, udp_bytes_follow_multiplexer, documented_series, documented_paths about "
@@ -923,8 +923,8 @@ PROPS = {
                  "and UDP expiry are exact",
                  "client_sessions counts tunnel sessions (Core::on_tunnel_request); ping / speedtest / reverse-proxy connections hold "
                  "no guard in the code and are not driven here",
-                 "HTTP/3 sessions are outside the Lean model (Proto has two values): their series are checked by the live suite as a "
-                 "direct oracle, with 'quiescent' read as 'within 3 s of the last action'; the SOCKS5 forwarder's TCP path is not driven "
+                 "HTTP/3 histories run on the wall clock: 'quiescent' is read as 'two equal scrapes 40 ms apart, at most 2 s after the "
+                 "operation', and they contain no clock advances (timeouts of HTTP/3 tunnels are not exercised); the SOCKS5 forwarder's TCP path is not driven "
                  "(its UDP multiplexer is, by C07's SOCKS5 suite); ICMP traffic only where raw sockets are permitted",
                  "prometheus crate text encoding; Linux loopback TCP (origin sockets use TCP_NODELAY) and a full accept queue to make a "
                  "connect hang"],
